@@ -144,6 +144,21 @@ Section Process.
     intros st0 h i e1 e2 move Hh.
     exact (history_independence st0 h (map (retag move) h) i e1 e2 Hh (retag_crash_ok move h Hh)).
   Qed.
+
+  (* special case: a run that FAILS after it has already written survivors (a cache
+     filled while parsing, a registry half updated: w is arbitrary on the survivors
+     some run-time path writes), followed by the retry of a request: the retry gives
+     what the request gives alone in a fresh process *)
+  Corollary retry_after_crash :
+    forall (st0 : state Val) (h : list (@event Val EVal Input)) (w : state Val -> state Val)
+           (i : Input) (e1 e2 : entropy EVal),
+      Forall (crash_ok t) h -> crash_ok t (@Crash Val EVal Input w) ->
+      out run st0 ((h ++ [Crash w]) ++ [Run i e1]) = out run st0 ([] ++ [Run i e2]).
+  Proof.
+    intros st0 h w i e1 e2 Hh Hw.
+    apply history_independence; [|constructor].
+    apply Forall_app. split; [exact Hh | constructor; [exact Hw | constructor]].
+  Qed.
 End Process.
 
 (* ---- the demo systems ---------------------------------------------------- *)
@@ -206,6 +221,27 @@ Proof.
   exists zero_state, [], [Run 5 e0], 7, e0.
   split; [constructor|]. split; [repeat constructor|].
   vm_compute. discriminate.
+Qed.
+
+(* crash mid-write, then retry: the failing run left a value in a survivor that the
+   retry reads (bad_run answers from its cache when the cache is non-empty) - the
+   retry "succeeds" with the leftover although the request alone gives 7 *)
+Theorem retry_after_crash_necessary :
+  exists (t : list surv) (run : state nat -> entropy nat -> nat -> nat * state nat),
+    reads_only run t [] /\ writes_only run t /\ survivor_obligation t = false /\
+    exists st0 (w : state nat -> state nat) i e,
+      crash_ok t (@Crash nat nat nat w) /\
+      out run st0 (([] ++ [Crash w]) ++ [Run i e]) <> out run st0 ([] ++ [Run i e]).
+Proof.
+  exists bad_table, bad_run.
+  split; [exact bad_reads|]. split; [exact bad_writes|]. split; [reflexivity|].
+  exists zero_state, (fun st => upd st "cache" 9), 7, e0.
+  split.
+  - simpl. intros st id Hid.
+    unfold written, bad_table in Hid. simpl in Hid.
+    rewrite orb_false_r, andb_true_r in Hid.
+    apply upd_other. exact Hid.
+  - vm_compute. discriminate.
 Qed.
 
 (* same for an un-neutralised unordered iteration that reaches the output *)
